@@ -1,6 +1,6 @@
 """Stage implementations used by /verif/check. A stage explores something and returns a dict:
    name, states, transitions, evaluations, nontrivial, traces, samples, violations, notes, exhaustive"""
-import json, os, subprocess, time, shutil
+import json, os, re, subprocess, time, shutil
 from vlib import *
 
 # ---------------------------------------------------------------- relevance of discrepancy categories
@@ -73,17 +73,29 @@ def sized_cfg(ops, nslots, nblocks, maxframes, hows, emit=True, view="CanonView"
         "CHECK_DEADLOCK FALSE", ""])
 
 
-def graph_replay(prop, tier, name, family, root, modules, cfg_text, nslots, harness_cfg="a", tlc_timeout=3000):
+def graph_replay(prop, tier, name, family, root, modules, cfg_text, nslots, harness_cfg="a", tlc_timeout=3000, simulate=None):
     """TLC explores the handle-level specification exhaustively (invariants + action properties) and
     exports one concrete behaviour per transition; every behaviour is replayed into the real crate and
     the implementation's observable state compared with the specification's projection."""
     wd = workdir(prop)
     stage_spec(wd, modules)
     exe = build_harness(harness_cfg)
-    out, st = run_tlc(wd, root, cfg_text, name, workers=1, timeout=tlc_timeout)
+    if simulate:
+        # random walks through the same specification: path coverage beyond single edges (every line is
+        # a prefix of a walk plus one enabled step, replayed from scratch and compared after its last step)
+        num, depth, seed = simulate
+        out, st = run_tlc(wd, root, cfg_text, name, workers=1, timeout=tlc_timeout,
+                          extra=["-simulate", "num=%d" % num, "-depth", str(depth), "-seed", str(seed)])
+        txt = open(out, errors="replace").read()
+        m = re.search(r"The number of states generated: (\d+)", txt)
+        st["generated"] = int(m.group(1)) if m else 0
+        st["distinct"] = st["generated"]
+        st["ok"] = m is not None and "Error:" not in "".join(l for l in txt.splitlines() if not l.startswith("<<\"BEH\""))
+    else:
+        out, st = run_tlc(wd, root, cfg_text, name, workers=1, timeout=tlc_timeout)
     res = {"name": name, "states": st["distinct"], "transitions": st["generated"], "tlc": st,
            "evaluations": 0, "nontrivial": 0, "traces": 0, "samples": [], "violations": [], "notes": [],
-           "exhaustive": True}
+           "exhaustive": not simulate}
     if not st["ok"]:
         raise ToolError("TLC did not complete on %s (%s): the specification itself is inconsistent or TLC failed; "
                         "see %s" % (name, st["error"], out))
